@@ -95,7 +95,7 @@ pub struct LspTrace {
     pub init_shape: u8,
 }
 
-pub const INIT_SHAPES: u8 = 10;
+pub const INIT_SHAPES: u8 = 12;
 
 pub fn init_shape_name(shape: u8) -> &'static str {
     match shape {
@@ -108,6 +108,8 @@ pub fn init_shape_name(shape: u8) -> &'static str {
         7 => "folder_trailing_slash",
         8 => "rich_client_params",
         9 => "folder_percent_encoded",
+        10 => "rich_client_own_token_type_order",
+        11 => "rich_client_without_modifier_token_type",
         _ => "plain",
     }
 }
@@ -126,7 +128,7 @@ pub fn initialize_params(ws: Option<&str>, shape: u8) -> Value {
         (5, None) => plain(one(&format!("{root_dir}/ws/a.st"))),
         (6, None) => plain(one("untitled:ws")),
         (7, Some(uri)) => plain(one(&format!("{uri}/"))),
-        (8, ws) => json!({
+        (8 | 10 | 11, ws) => json!({
             "processId": 4711,
             "clientInfo": {"name": "simplc editor", "version": "1.0"},
             "locale": "en",
@@ -138,7 +140,13 @@ pub fn initialize_params(ws: Option<&str>, shape: u8) -> Value {
                 "textDocument": {
                     "synchronization": {"dynamicRegistration": false, "didSave": true},
                     "publishDiagnostics": {"relatedInformation": true, "versionSupport": true},
-                    "semanticTokens": {"requests": {"full": {"delta": true}, "range": true}, "tokenTypes": ["keyword", "variable"], "tokenModifiers": [], "formats": ["relative"]}
+                    "semanticTokens": {"requests": {"full": {"delta": true}, "range": true}, "tokenTypes": match shape {
+                        // every type the server knows, in an order of the client's own
+                        10 => json!(["comment", "string", "operator", "keyword", "modifier", "variable", "namespace"]),
+                        // a client that cannot show one of the earlier entries of the server's legend
+                        11 => json!(["variable", "keyword", "comment", "string", "operator"]),
+                        _ => json!(["keyword", "variable"]),
+                    }, "tokenModifiers": [], "formats": ["relative"]}
                 },
                 "general": {"positionEncodings": ["utf-16"]}
             },
